@@ -12,7 +12,7 @@ for f in sorted(glob.glob('/tmp/seed/confirm*.log')):
             d = json.loads(l); m = re.search(r'/(C\d+)_out/m(\d)\.diff', d['patch']); conf['%s-m%s' % m.groups()] = d
         except Exception: pass
 tests = {}
-for f in sorted(glob.glob('/tmp/seed/seedtest*.log'), key=os.path.getmtime):
+for f in sorted(glob.glob('/tmp/seed/seedtest*.log')):
     cur = None
     for l in open(f, errors='replace'):
         m = re.match(r'== (C\d+) m(\d)', l)
